@@ -1002,6 +1002,16 @@ class Translator:
                 return g, args[0], args[1:]
             return g, None, args
         nm = ref.get('name', '')
+        if nm == 'operator()' and k == 'CXXOperatorCallExpr' and args:
+            # (C05, additive) functor temporary call such as std::less<T>()(a, b): the operator() lives in a record reached only by
+            # the second dump (--filter2), whose node ids are unrelated; resolve it by the record of the object and the signature
+            oti = self.typeinfo(args[0].get('type', {}))
+            if oti[0] == 'rec':
+                want = norm_sig(ref.get('type', {}).get('qualType', ''))
+                cands = [f for f in self.funcs if f.name == 'operator()' and f.kind == 'method' and f.rec is oti[1]
+                         and norm_sig(f.node.get('type', {}).get('qualType', '')) == want]
+                if len(cands) == 1:
+                    return cands[0], args[0], args[1:]
         if nm == 'operator=' and k == 'CXXOperatorCallExpr':
             # implicitly-defined or defaulted copy/move assignment
             return 'implicit_assign', args[0], args[1:]
@@ -1054,6 +1064,14 @@ class Translator:
             return ('true' if e.get('value') else 'false'), ('scalar', 'TBool')
         if k == 'FloatingLiteral':
             fr = Fraction(e['value'])
+            if getattr(Translator, 'exact_literals', False):
+                # (C04, additive; --exact-literals) the exact binary value of the literal (clang prints the evaluated value with
+                # round-trip digits): the dyadic rational of the binary64 / binary32 number, not the decimal text
+                fv = float(e['value'])
+                if ty[1] == 'F32':
+                    import struct
+                    fv = struct.unpack('f', struct.pack('f', fv))[0]
+                fr = Fraction(fv)
             return '(flit I %s %s %s)' % (ty[1], zlit(fr.numerator), zlit(fr.denominator)), ty
         if k == 'CXXThisExpr':
             if ctx.get('need_fill'):
@@ -1430,6 +1448,7 @@ def main():
     ap.add_argument('--inc', default='/verif/build/include')
     ap.add_argument('--json', default=None)
     ap.add_argument('--filter', default='rkcommon')
+    ap.add_argument('--exact-literals', action='store_true', help='(C04) floating literals as exact dyadic rationals')
     ap.add_argument('--filter2', default=None, help='(C04) filter of an additional AST dump of the same TU')
     ap.add_argument('--only', default=None, help='regex on generated names to keep')
     ap.add_argument('-D', action='append', default=[])
@@ -1440,6 +1459,8 @@ def main():
         sys.stderr.write(err[-3000:])
         sys.exit(2)
     docs = load_docs(js)
+    if a.exact_literals:
+        Translator.exact_literals = True
     if a.filter2:
         # (C04, additive) a second dump of the same TU with another filter (e.g. 'less' for the std::less<vec_t<..>>
         # specialisations, which live in namespace std and are not reached by the filter 'rkcommon').  Node ids of the two
